@@ -31,6 +31,14 @@ def run_standard(mod, ctx):
     ctx.obligations = [{"theorem": t, "axioms": ax[t]} for t in mod.THEOREMS]
     ctx.discharged = len(ctx.obligations)
     ctx.log("lean build ok, %d theorems audited" % len(ax))
+    if ctx.tier == "thorough":      # independent re-check of the compiled property modules (replays every declaration through the kernel from the .olean files)
+        import subprocess
+        for m in mod.IMPORTS:
+            p = subprocess.run(["lake", "env", "leanchecker", m], cwd=vcore.LEAN, capture_output=True, text=True, timeout=3600)
+            if p.returncode != 0:
+                raise BrokenCheck("leanchecker rejects %s: %s" % (m, (p.stdout + p.stderr)[-800:]))
+        ctx.stats["leanchecker_modules"] = list(mod.IMPORTS)
+        ctx.log("leanchecker: %d property modules re-checked from their .olean files" % len(mod.IMPORTS))
     tieb = vcore.tie_b_tables(ctx, mod.TABLES) if getattr(mod, "TABLES", None) else []
     if getattr(mod, "TABLES", None):
         ctx.log("Tie B: %d table obligations regenerated from the source, %d failed" % (len(mod.TABLES), len(tieb)))
